@@ -140,11 +140,26 @@ def core(raw):
     return {t: sorted(json.dumps(r, sort_keys=True, default=str) for r in raw[t]) for t in inject.CORE_TABLES}
 
 
-def known_match(exc_name, fn_name):
+def nested_sharing(app):
+    """does a provider that is not the root of its tree carry MISC_SHARES_VIA_AGGREGATE?"""
+    raw = app.raw_dump()
+    tid = [t['id'] for t in raw['traits'] if t['name'] == 'MISC_SHARES_VIA_AGGREGATE']
+    if not tid:
+        return False
+    holders = set(r['resource_provider_id'] for r in raw['resource_provider_traits'] if r['trait_id'] == tid[0])
+    return any(r['id'] in holders and r['parent_provider_id'] is not None for r in raw['resource_providers'])
+
+
+def known_match(exc_name, m, app):
+    """a recorded finding is identified by the input that fails (route, exception type, the circumstance in the stored
+    state), not by the name of the function the exception escapes from - a refactoring must not turn it into an alarm"""
+    route = '%s /%s' % (m['method'], m['path'].strip('/').split('/')[0])
     for f in common.load_known():
-        m = f.get('match', {})
-        if f.get('kind') == 'known' and f.get('property') == 'C15' and m.get('kind') == 'server-error' \
-                and m.get('exception') == exc_name and m.get('function') == fn_name:
+        k = f.get('match', {})
+        if f.get('kind') == 'known' and f.get('property') == 'C15' and k.get('kind') == 'server-error' \
+                and k.get('exception') == exc_name and k.get('route') == route:
+            if k.get('state') == 'nested-sharing-provider' and not nested_sharing(app):
+                continue
             return f
     return None
 
@@ -233,7 +248,7 @@ def fuzz_state(name, app, templates, rng, n, stats, out_probs, known_hits):
         stats['distinct'].add((name, m['method'], m['path'], json.dumps(m['query']), m['body'], json.dumps(m['headers'], sort_keys=True), m['ctype']))
         for p in judge(m, resp, err, before, after):
             if p[0] == 'server-error':
-                f = known_match(p[2], p[3])
+                f = known_match(p[2], m, app)
                 if f is not None:
                     known_hits.append((f, name, jsonable(m)))
                     continue
@@ -333,7 +348,7 @@ def boundary_stream(tier, stats, out_probs, known_hits):
                 stats['distinct'].add(('boundary', m['method'], m['path'], v, raw))
                 for p in judge(m, resp, err, before, after):
                     if p[0] == 'server-error':
-                        f = known_match(p[2], p[3])
+                        f = known_match(p[2], m, app)
                         if f is not None:
                             known_hits.append((f, 'plain', jsonable(m)))
                             continue
@@ -429,7 +444,7 @@ def run(pid, tier, out):
     b0 = core(app.raw_dump())
     resp, err = fuzz.issue(app, m0)
     for p in judge(m0, resp, err, b0, core(app.raw_dump())):
-        f = known_match(p[2], p[3]) if p[0] == 'server-error' else None
+        f = known_match(p[2], m0, app) if p[0] == 'server-error' else None
         if f is not None:
             known_hits.append((f, 'exotic', jsonable(m0)))
         else:
@@ -572,7 +587,7 @@ def replay(pid, path, out):
         b = core(app.raw_dump())
         resp, err = fuzz.issue(app, m)
         for p in judge(m, resp, err, b, core(app.raw_dump())):
-            if p[0] == 'server-error' and known_match(p[2], p[3]):
+            if p[0] == 'server-error' and known_match(p[2], m, app):
                 out.known_finding(p[1])
             else:
                 out.violation({'kind': 'fuzz', 'state': d['state'], 'request': d['request'], 'problem': p[0]}, p[1])
